@@ -186,7 +186,7 @@ fn scenario_store(sc: &str) -> Result<Violations, String> {
         "get" => {
             let r = get_key_value_new(&"k".to_string(), &db);
             if let Response::Value { key, value, version } = r {
-                match &old { Some(o) => chk(&mut v, "C01.get-reply", key == "k" && value == o.value && version == o.version),
+                match &old { Some(o) => { chk(&mut v, "C01.get-reply", key == "k" && value == o.value && version == o.version); chk(&mut v, "C02.get-safe-reports-stored-version", version == o.version); }
                              None => chk(&mut v, "C01.get-reply", key == "k" && value == "<Empty>" && version == 1) }
             } else { chk(&mut v, "C01.get-reply", false); }
         }
@@ -375,7 +375,12 @@ fn scenario_oplog(sc: &str) -> Result<Violations, String> {
     let times: Vec<u64> = p[0].split('.').filter(|x| !x.is_empty()).map(|x| x.parse().unwrap()).collect();
     let since: u64 = p[1].parse().map_err(|_| "bad since")?;
     let dir = std::env::var("NUN_DBS_DIR").map_err(|_| "NUN_DBS_DIR not set")?;
-    let _ = std::fs::remove_dir_all(format!("{}/oplog", dir));
+    // consecutive scenarios that differ only in `since` share the files on disk (the rotated files must have strictly increasing creation times, and file timestamps
+    // advance only with the kernel's clock tick: laying the files out again for every query would cost a few milliseconds each)
+    static LAYOUT: std::sync::Mutex<String> = std::sync::Mutex::new(String::new());
+    let layout_key = format!("{}|{}", p[0], if p.len() > 2 { p[2] } else { "" });
+    let reuse = { let l = LAYOUT.lock().unwrap(); !layout_key.is_empty() && *l == layout_key && std::path::Path::new(&format!("{}/oplog-nun.op", dir)).exists() };
+    if !reuse { let _ = std::fs::remove_dir_all(format!("{}/oplog", dir)); }
     let mut bytes: Vec<u8> = vec![];
     // rotated scenarios use two keys of one database so that a key has records of different kinds in different files
     let rotated = p.len() > 2;
@@ -387,13 +392,27 @@ fn scenario_oplog(sc: &str) -> Result<Violations, String> {
     // optional third field: cut positions - the records before each cut are in rotated files (oldest first, created in that order), the rest in the live file
     let cuts: Vec<usize> = if p.len() > 2 { p[2].split('.').filter(|x| !x.is_empty()).map(|x| x.parse().unwrap()).collect() } else { vec![] };
     let mut start = 0usize;
-    if !cuts.is_empty() { std::fs::create_dir_all(format!("{}/oplog", dir)).map_err(|e| e.to_string())?; }
+    if !cuts.is_empty() && !reuse { std::fs::create_dir_all(format!("{}/oplog", dir)).map_err(|e| e.to_string())?; }
+    let mut prev_created: Option<std::time::SystemTime> = None;
     for (n, c) in cuts.iter().enumerate() {
-        std::fs::write(format!("{}/oplog/oplog-nun-{}.op", dir, 1000 + n), &bytes[start * 25..c * 25]).map_err(|e| e.to_string())?;
-        std::thread::sleep(std::time::Duration::from_micros(300));   // distinct creation times
+        if !reuse {
+            // strictly increasing creation times: a file whose creation time is not later than its predecessor's is written again after a pause
+            let path = format!("{}/oplog/oplog-nun-{}.op", dir, 1000 + n);
+            let mut tries = 0;
+            loop {
+                std::fs::write(&path, &bytes[start * 25..c * 25]).map_err(|e| e.to_string())?;
+                let created = std::fs::metadata(&path).and_then(|m| m.created()).map_err(|e| e.to_string())?;
+                if prev_created.map_or(true, |pc| created > pc) { prev_created = Some(created); break; }
+                tries += 1;
+                if tries > 200 { return Err("file creation times do not advance".into()); }
+                let _ = std::fs::remove_file(&path);
+                std::thread::sleep(std::time::Duration::from_millis(1));
+            }
+        }
         start = *c;
     }
-    std::fs::write(format!("{}/oplog-nun.op", dir), &bytes[start * 25..]).map_err(|e| e.to_string())?;
+    if !reuse { std::fs::write(format!("{}/oplog-nun.op", dir), &bytes[start * 25..]).map_err(|e| e.to_string())?; }
+    *LAYOUT.lock().unwrap() = layout_key;
     let mut v: Violations = vec![];
     let r = match catch_unwind(AssertUnwindSafe(|| read_operations_since(since))) { Ok(r) => r, Err(_) => { v.push("C10.safety".into()); return Ok(v); } };
     for (i, t) in times.iter().enumerate() {
@@ -405,6 +424,10 @@ fn scenario_oplog(sc: &str) -> Result<Violations, String> {
         if *t >= since && last {
             chk(&mut v, "C12.latest", r.get(&k).map_or(false, |o| o.timestamp == *t && o.db == db && o.key == key && o.opp.to_u8() == op));
         }
+    }
+    if std::env::var("VERIF_TRACE").is_ok() {
+        if let Ok(rd) = std::fs::read_dir(format!("{}/oplog", dir)) { for e in rd.flatten() { eprintln!("file {:?} created {:?} len {}", e.file_name(), e.metadata().unwrap().created().unwrap(), e.metadata().unwrap().len()); } }
+        let mut ks: Vec<_> = r.iter().map(|(k, o)| (k.clone(), o.timestamp, o.opp.to_u8())).collect(); ks.sort(); eprintln!("result {:?}", ks);
     }
     let lt = Oplog::last_op_time();
     if cuts.is_empty() || start < times.len() { chk(&mut v, "C12.last-op-time", lt == times.last().cloned().unwrap_or(0)); }
@@ -426,10 +449,15 @@ fn all_oplog_scenarios() -> Vec<String> {
     // rotated logs: the same record lists (up to 4 / deep 5 records) cut into one or two rotated files plus the live file
     let mut rot = vec![];
     rec(&mut vec![], if deep() { 5 } else { 4 }, &mut rot);
+    // ordered by (records, cuts) so that the queries of one layout follow each other
+    let mut rotated: Vec<(String, String, String)> = vec![];
     for sc in rot {
         let n = sc.split('|').next().unwrap().split('.').filter(|x| !x.is_empty()).count();
-        for c1 in 1..=n { out.push(format!("{}|{}", sc, c1)); for c2 in c1 + 1..=n { out.push(format!("{}|{}.{}", sc, c1, c2)); } }
+        let (times, since) = sc.split_once('|').unwrap();
+        for c1 in 1..=n { rotated.push((times.to_string(), format!("{}", c1), since.to_string())); for c2 in c1 + 1..=n { rotated.push((times.to_string(), format!("{}.{}", c1, c2), since.to_string())); } }
     }
+    rotated.sort_by(|a, b| (a.0.as_str(), a.1.as_str()).cmp(&(b.0.as_str(), b.1.as_str())));
+    for (times, cuts, since) in rotated { out.push(format!("{}|{}|{}", times, since, cuts)); }
     out
 }
 
@@ -841,6 +869,7 @@ fn all_logthread_scenarios() -> Vec<String> {
 fn scenario_logroll(sc: &str) -> Result<Violations, String> {
     // sc = "<number of records>": written one by one with Oplog::try_write_op_log; after each, the last-operation time and the catch-up query are judged
     use nundb::disk_ops::{read_operations_since, Oplog};
+    if let Some(f) = sc.strip_prefix("declutter|") { return scenario_declutter(f.parse().map_err(|_| "bad count")?); }
     let n: u64 = sc.parse().map_err(|_| "bad count")?;
     Oplog::clean_op_log_metadata_files();
     let mut v: Violations = vec![];
@@ -864,7 +893,150 @@ fn scenario_logroll(sc: &str) -> Result<Violations, String> {
     Oplog::clean_op_log_metadata_files();
     Ok(v)
 }
-fn all_logroll_scenarios() -> Vec<String> { vec!["19".into(), "21".into(), if deep() { "130".into() } else { "45".into() }] }
+/// "Rotation keeps the newest records": after many roll-overs the declutter step (remove_old_db_files, reached through the cfg(nundb_verif) hook) may delete old rotated
+/// files, but everything in the newest nine rotated files and the live file must still be answered
+fn scenario_declutter(n_files: usize) -> Result<Violations, String> {
+    use nundb::disk_ops::{read_operations_since, verif_remove_old_db_files, Oplog};
+    let dir = std::env::var("NUN_DBS_DIR").map_err(|_| "NUN_DBS_DIR not set")?;
+    Oplog::clean_op_log_metadata_files();
+    let mut v: Violations = vec![];
+    let count_rotated = || std::fs::read_dir(format!("{}/oplog", dir)).map(|rd| rd.flatten().filter(|e| e.file_name().to_string_lossy().ends_with(".op")).count()).unwrap_or(0);
+    let ok = catch_unwind(AssertUnwindSafe(|| {
+        let mut stream = Oplog::get_log_file_append_mode();
+        let mut i: u64 = 0;
+        let mut last_created: Option<std::time::SystemTime> = None;
+        while count_rotated() < n_files && i < 5000 {
+            i += 1;
+            let before = count_rotated();
+            Oplog::try_write_op_log(&mut stream, Some(1), i, &ReplicateOpp::Update, 1000 + i).unwrap();
+            if count_rotated() > before {
+                // a roll-over happened: in production they are minutes apart; here the next one must not share the file-timestamp tick of this one
+                let newest = std::fs::read_dir(format!("{}/oplog", dir)).unwrap().flatten().filter_map(|e| e.metadata().ok().and_then(|m| m.created().ok())).max();
+                let mut waited = 0;
+                loop {
+                    let probe = format!("{}/tick-probe", dir);
+                    std::fs::write(&probe, b"x").unwrap();
+                    let now = std::fs::metadata(&probe).unwrap().created().unwrap();
+                    let _ = std::fs::remove_file(&probe);
+                    if newest.map_or(true, |t| now > t) || waited > 200 { break; }
+                    waited += 1; std::thread::sleep(std::time::Duration::from_millis(1));
+                }
+                last_created = newest;
+            }
+        }
+        let _ = last_created;
+        for _ in 0..5 { i += 1; Oplog::try_write_op_log(&mut stream, Some(1), i, &ReplicateOpp::Update, 1000 + i).unwrap(); }
+        i
+    }));
+    let n = match ok { Ok(n) => n, Err(_) => { v.push("C10.safety".into()); return Ok(v); } };
+    if count_rotated() < n_files { return Err("the log did not roll over".into()); }
+    if catch_unwind(AssertUnwindSafe(|| verif_remove_old_db_files())).is_err() { v.push("C10.safety".into()); return Ok(v); }
+    chk(&mut v, "C12.rotation-bounds-the-log", count_rotated() <= 9);
+    // 20 records per file: the newest nine rotated files and the live file hold at least the last 9 * 20 records
+    let first_kept = n - 150;
+    let r = read_operations_since(1000 + first_kept);
+    let missing: Vec<u64> = (first_kept..=n).filter(|i| !r.contains_key(&format!("1_{}", i))).collect();
+    if std::env::var("VERIF_TRACE").is_ok() { eprintln!("records 1..{}, rotated files now {}, missing {:?}", n, count_rotated(), missing); }
+    for l in ["C12.rotation-keeps-newest", "C12.all-files-after"] { chk(&mut v, l, missing.is_empty()); }
+    chk(&mut v, "C12.last-op-time", Oplog::last_op_time() == 1000 + n);
+    Oplog::clean_op_log_metadata_files();
+    Ok(v)
+}
+fn all_logroll_scenarios() -> Vec<String> { vec!["19".into(), "21".into(), if deep() { "130".into() } else { "45".into() }, "declutter|9".into(), "declutter|12".into(), if deep() { "declutter|30".into() } else { "declutter|15".into() }] }
+
+// ------------------------------------------------------------------ family: linktag (C07: the peer tag of a cluster link follows the LAST role the peer announced)
+fn scenario_linktag(sc: &str) -> Result<Violations, String> {
+    // sc = events of one authenticated peer link separated by '.':  p<name> (set-primary name)  s<name> (set-secoundary name); this node is a secondary.
+    // The tag decides what the node does when the link drops (a primary that leaves starts an election, a secondary that leaves does not), so it must always be the
+    // member and role of the last announcement
+    let w = mk_world(0);
+    w.dbs.node_state.swap(ClusterRole::Secoundary as usize, std::sync::atomic::Ordering::Relaxed);
+    let mut v: Violations = vec![];
+    let (mut c, mut rx) = Client::new_empty_and_receiver();
+    run_cmd(&w, &mut c, &mut rx, "auth u p");
+    for ev in sc.split('.').filter(|e| !e.is_empty()) {
+        let (role, cmd) = if &ev[0..1] == "p" { (ClusterRole::Primary, format!("set-primary {}", &ev[1..])) } else { (ClusterRole::Secoundary, format!("set-secoundary {}", &ev[1..])) };
+        let out = catch_unwind(AssertUnwindSafe(|| run_cmd(&w, &mut c, &mut rx, &cmd)));
+        if out.is_err() { v.push("C10.safety".into()); return Ok(v); }
+        let tag = c.cluster_member.lock().unwrap().as_ref().map(|m| (m.name.clone(), m.role));
+        let ok = tag == Some((ev[1..].to_string(), role));
+        for l in ["C07.link-tag-follows-last-announcement", "C07.primary-leaving-starts-election"] { chk(&mut v, l, ok); }
+        // a set-primary also makes this node a secondary (it never stays or becomes primary by being told who the primary is)
+        if role == ClusterRole::Primary { chk(&mut v, "C07.told-primary-is-secondary", w.dbs.get_role() == ClusterRole::Secoundary); }
+    }
+    Ok(v)
+}
+fn all_linktag_scenarios() -> Vec<String> {
+    let evs = ["pB:1", "sB:1", "pC:1", "sC:1"];
+    let mut out = vec![];
+    fn rec(evs: &[&str], cur: &mut Vec<String>, depth: usize, out: &mut Vec<String>) {
+        if !cur.is_empty() { out.push(cur.join(".")); }
+        if depth == 0 { return; }
+        for e in evs { cur.push(e.to_string()); rec(evs, cur, depth - 1, out); cur.pop(); }
+    }
+    rec(&evs, &mut vec![], 3, &mut out);
+    out
+}
+
+// ------------------------------------------------------------------ family: replica (C19 / C02: the primary's replication lines, applied in its order on a secondary, leave the same value)
+fn mk_dbs_rx(role: ClusterRole) -> (Arc<Databases>, Receiver<String>) {
+    let (s1, r1): (Sender<String>, Receiver<String>) = channel(1000);
+    let (s2, r2): (Sender<String>, Receiver<String>) = channel(1000);
+    std::mem::forget(r1);
+    let d = Arc::new(Databases::new("u".into(), "p".into(), "".into(), "".into(), s1, s2, HashMap::new(), 1, true));
+    d.node_state.swap(role as usize, std::sync::atomic::Ordering::Relaxed);
+    (d, r2)
+}
+const REPLICA_WRITES: [&str; 9] = ["set k a", "set k b", "set-safe k 0 c", "set-safe k 1 d", "set-safe k 5 e", "set-safe k -1 f", "increment n 2", "remove k", "set-safe k 2 g"];
+fn scenario_replica(sc: &str) -> Result<Violations, String> {
+    // sc = "<strategy>|<indices into REPLICA_WRITES, e.g. 0.2.2>": a client runs the writes on the primary; every line the primary puts on its replication channel is fed, in
+    // order, to a secondary (as the authenticated peer link does); afterwards both nodes must hold the same value for k and n
+    let p: Vec<&str> = sc.split('|').collect();
+    let idx: Vec<usize> = p[1].split('.').filter(|x| !x.is_empty()).map(|x| x.parse().unwrap_or(99)).collect();
+    if idx.iter().any(|i| *i >= REPLICA_WRITES.len()) { return Err("bad index".into()); }
+    let (pd, mut prx) = mk_dbs_rx(ClusterRole::Primary);
+    let (sd, mut srx) = mk_dbs_rx(ClusterRole::Secoundary);
+    let pw = World { dbs: pd }; let sw = World { dbs: sd };
+    let (mut pc, mut pcrx) = Client::new_empty_and_receiver();
+    let (mut peer, mut peerrx) = Client::new_empty_and_receiver();
+    let mut v: Violations = vec![];
+    run_cmd(&sw, &mut peer, &mut peerrx, "auth u p");
+    run_cmd(&sw, &mut peer, &mut peerrx, "set-primary p:1");   // the link is the primary's: a secondary creates databases only when its primary says so
+    let ok = catch_unwind(AssertUnwindSafe(|| {
+        let mut cmds: Vec<String> = vec!["auth u p".into(), format!("create-db d tok {}", p[0]), "use-db d tok".into()];
+        for i in &idx { cmds.push(REPLICA_WRITES[*i].to_string()); }
+        for c in &cmds {
+            run_cmd(&pw, &mut pc, &mut pcrx, c);
+            for line in drain(&mut prx) { let r = run_cmd(&sw, &mut peer, &mut peerrx, &line); if std::env::var("VERIF_TRACE").is_ok() { eprintln!("{:?} -> {:?}", line, r); } }
+        }
+    }));
+    if ok.is_err() { v.push("C10.safety".into()); return Ok(v); }
+    drain(&mut srx);
+    let read = |w: &World, k: &str| -> Option<(String, bool)> { let m = w.dbs.map.read().unwrap(); m.get("d").and_then(|db| db.get_value(k.to_string())).map(|e| (e.value, e.state == ValueStatus::Deleted)) };
+    for k in ["k", "n"] {
+        let a = read(&pw, k); let b = read(&sw, k);
+        // a removed key is a tombstone on one node and may be absent on the other: compare what a client can read
+        let live = |x: &Option<(String, bool)>| -> Option<String> { match x { Some((val, false)) => Some(val.clone()), _ => None } };
+        let okk = live(&a) == live(&b);
+        if std::env::var("VERIF_TRACE").is_ok() && !okk { eprintln!("key {}: primary {:?} secondary {:?}", k, a, b); }
+        chk(&mut v, "C19.replicas-agree", okk || p[0] != "newer");
+        chk(&mut v, "C02.replicas-agree", okk || p[0] != "none");
+        chk(&mut v, "C05.live-replication-converges", okk);
+    }
+    Ok(v)
+}
+fn all_replica_scenarios() -> Vec<String> {
+    let mut hist = vec![];
+    fn rec(cur: &mut Vec<String>, depth: usize, out: &mut Vec<String>) {
+        if !cur.is_empty() { out.push(cur.join(".")); }
+        if depth == 0 { return; }
+        for e in 0..REPLICA_WRITES.len() { cur.push(e.to_string()); rec(cur, depth - 1, out); cur.pop(); }
+    }
+    rec(&mut vec![], if deep() { 4 } else { 3 }, &mut hist);
+    let mut out = vec![];
+    for h in hist { for st in ["newer", "none"] { out.push(format!("{}|{}", st, h)); } }
+    out
+}
 
 // ------------------------------------------------------------------ family: permchange (C09: a permission list changed while the user's session is open)
 const PC_USERS: [(&str, &str); 3] = [("usr", "use-db d usr ut"), ("nolist", "use-db d nolist nt"), ("star", "use-db d star st")];
@@ -1084,7 +1256,7 @@ fn scenario_lines(sc: &str) -> Result<Violations, String> {
 }
 // ------------------------------------------------------------------ family: connections ($connections == open sessions that selected the database)
 fn scenario_connections(sc: &str) -> Result<Violations, String> {
-    // sc = events separated by '.':  <session a|b|c><op>  ops: d (use-db d tok) e (use-db e etok) u (use-db d usr ut) x (use-db d wrong) l (disconnect)
+    // sc = events separated by '.':  <session a|b|c><op>  ops: d (use-db d tok) e (use-db e etok) u (use-db d usr ut) x (use-db d wrong) l (disconnect) w (set $connections 9)
     let w = mk_world(0);
     {   let (mut admin, mut arx) = Client::new_empty_and_receiver();
         for c in ["auth u p", "create-db e etok"] { run_cmd(&w, &mut admin, &mut arx, c); }
@@ -1094,10 +1266,12 @@ fn scenario_connections(sc: &str) -> Result<Violations, String> {
     let base: Vec<usize> = { let m = w.dbs.map.read().unwrap(); ["d", "e"].iter().map(|n| m.get(*n).unwrap().connections_count()).collect() };
     let mut sess: Vec<Option<(Client, Receiver<String>)>> = vec![None, None, None];
     let mut sel: Vec<Option<String>> = vec![None, None, None];
+    let mut dirty: Option<String> = None;   // the database whose mirror key a client has overwritten and no session event has rewritten yet
     for ev in sc.split('.').filter(|e| !e.is_empty()) {
         let i = (ev.as_bytes()[0] - b'a') as usize;
         if sess[i].is_none() { sess[i] = Some(Client::new_empty_and_receiver()); }
         let op = &ev[1..2];
+        let sel_before = sel[i].clone();
         let ok = catch_unwind(AssertUnwindSafe(|| {
             let (c, rx) = sess[i].as_mut().unwrap();
             match op {
@@ -1105,10 +1279,17 @@ fn scenario_connections(sc: &str) -> Result<Violations, String> {
                 "e" => { if !is_err(&run_cmd(&w, c, rx, "use-db e etok").0) { sel[i] = Some("e".into()); } }
                 "u" => { if !is_err(&run_cmd(&w, c, rx, "use-db d usr ut").0) { sel[i] = Some("d".into()); } }
                 "x" => { run_cmd(&w, c, rx, "use-db d wrong"); }
+                // a client overwrites the mirror key itself: the next session event must put the true count back (the key is written from the counter, not nudged)
+                "w" => { run_cmd(&w, c, rx, "set $connections 9"); }
                 _ => { c.left(&w.dbs); }
             }
         }));
         if ok.is_err() { v.push("C10.safety".into()); v.push("C17.no-underflow".into()); return Ok(v); }
+        // the mirror of a database is rewritten by the session events that touch its counter: an accepted use-db of it, a session moving away from it, a disconnect from it
+        if op == "w" { if sel_before.is_some() { dirty = sel_before.clone(); } continue; }
+        let sel_after = if op == "l" { None } else { sel[i].clone() };
+        let accepted = op == "l" || (op != "x" && sel_after.is_some() && (op == "e") == (sel_after.as_deref() == Some("e")));
+        if accepted && dirty.is_some() && (sel_before == dirty || sel_after == dirty) { dirty = None; }
         if op == "l" { sess[i] = None; sel[i] = None; }
         let m = w.dbs.map.read().unwrap();
         for (bi, name) in ["d", "e"].iter().enumerate() {
@@ -1119,13 +1300,13 @@ fn scenario_connections(sc: &str) -> Result<Violations, String> {
             let key = db.get_value("$connections".into()).map(|e| e.value);
             chk(&mut v, "C17.count-is-open-sessions", got == want);
             for l in ["C17.use-db-increments", "C17.use-db-releases-previous", "C17.left-decrements", "C17.lemma-accounting"] { chk(&mut v, l, got == want); }
-            if want > 0 || key.is_some() { chk(&mut v, "C17.mirror", key.as_deref() == Some(want.to_string().as_str()) || (want == 0 && key.is_none())); }
+            if (want > 0 || key.is_some()) && dirty.as_deref() != Some(name) { chk(&mut v, "C17.mirror", key.as_deref() == Some(want.to_string().as_str()) || (want == 0 && key.is_none())); }
         }
     }
     Ok(v)
 }
 fn all_connections_scenarios() -> Vec<String> {
-    let evs = ["ad", "ae", "au", "ax", "al", "bd", "be", "bl"];
+    let evs = ["ad", "ae", "au", "ax", "al", "bd", "be", "bl", "aw"];
     let mut out = vec![];
     fn rec(evs: &[&str], cur: &mut Vec<String>, depth: usize, out: &mut Vec<String>) {
         if !cur.is_empty() { out.push(cur.join(".")); }
@@ -1412,11 +1593,32 @@ fn scenario_oplogdisk(sc: &str) -> Result<Violations, String> {
             for record in read_operations_since(0).values() {
                 if matches!(record.opp, ReplicateOpp::Update | ReplicateOpp::Remove) {
                     let ok = id_keys.get(&record.key).is_some() && id_keys.get(&record.key) == intent.get(&record.key);
-                    for l in ["C16.log-record-after-invalidation", "C16.new-key-invalidates-before-it-is-logged", "C16.keymap-written-before-flag", "C16.kept-log-decodes"] { chk(v, l, ok); }
+                    for l in ["C16.log-record-after-invalidation", "C16.new-key-invalidates-before-it-is-logged", "C16.keymap-written-before-flag", "C16.kept-log-decodes", "C16.invalidate-clears-the-flag-on-disk"] { chk(v, l, ok); }
                 }
             }
         }
     };
+    // variant `T:`: ONE replication thread (one long-lived flag-file handle) serves the whole sequence; the key-map snapshots happen in between, from this thread, as the
+    // snapshot timer does; each logged event is awaited (its id becomes the last-operation time) before the node is judged
+    if let Some(seq) = sc.strip_prefix("T:") {
+        let (tx, rx): (Sender<String>, Receiver<String>) = channel(100);
+        let dbs2 = dbs.clone();
+        let handle = std::thread::spawn(move || { let _ = catch_unwind(AssertUnwindSafe(|| futures::executor::block_on(start_replication_thread(rx, dbs2)))); });
+        for ev in seq.split('.').filter(|e| !e.is_empty()) {
+            if ev == "S" { snapshot_keys(&dbs); judge(&mut v, &dbs); continue; }
+            let key = format!("k{}", &ev[1..]);
+            let msg = match &ev[0..1] { "n" | "o" => format!("replicate kd {} -1 v", key), _ => format!("replicate-remove kd {}", key) };
+            let id = replicate_message_with_sender(&tx, msg).map_err(|e| e)?;
+            let t0 = std::time::Instant::now();
+            while Oplog::last_op_time() != id && t0.elapsed().as_millis() < 3000 { std::thread::sleep(std::time::Duration::from_micros(200)); }
+            if Oplog::last_op_time() != id { v.push("C10.safety".into()); return Ok(v); }   // the thread died or stopped logging
+            judge(&mut v, &dbs);
+        }
+        let _ = tx.clone().try_send("exit".to_string());
+        let _ = handle.join();
+        Oplog::clean_op_log_metadata_files();
+        return Ok(v);
+    }
     for ev in sc.split('.').filter(|e| !e.is_empty()) {
         let ok = catch_unwind(AssertUnwindSafe(|| {
             if ev == "S" { snapshot_keys(&dbs); return; }
@@ -1442,6 +1644,10 @@ fn all_oplogdisk_scenarios() -> Vec<String> {
         for e in evs { cur.push(e.to_string()); rec(evs, cur, depth - 1, out); cur.pop(); }
     }
     rec(&evs, &mut vec![], if deep() { 4 } else { 3 }, &mut out);
+    // the same alphabet without the unknown-database event, through one long-lived replication thread
+    let mut one = vec![];
+    rec(&["n1", "n2", "o1", "r1", "S"], &mut vec![], if deep() { 4 } else { 3 }, &mut one);
+    for h in one { if h.contains('S') { out.push(format!("T:{}", h)); } }
     out
 }
 
@@ -1803,7 +2009,7 @@ fn families() -> Vec<(&'static str, fn() -> Vec<String>, fn(&str) -> Result<Viol
          ("wsserver", all_wsserver_scenarios, scenario_wsserver),
          ("values", all_values_scenarios, scenario_values), ("forward", all_forward_scenarios, scenario_forward),
          ("resub", all_resub_scenarios, scenario_resub), ("logthread", all_logthread_scenarios, scenario_logthread),
-         ("logroll", all_logroll_scenarios, scenario_logroll)]
+         ("logroll", all_logroll_scenarios, scenario_logroll), ("linktag", all_linktag_scenarios, scenario_linktag), ("replica", all_replica_scenarios, scenario_replica)]
 }
 /// the properties whose clause labels a family can report (every family reports C10.safety when a call panics, so C10 runs them all)
 fn family_props(fam: &str) -> &'static [&'static str] {
@@ -1811,7 +2017,7 @@ fn family_props(fam: &str) -> &'static [&'static str] {
         "store" => &["C01", "C02", "C03", "C08"], "strategy" => &["C02", "C13", "C19"], "pending" => &["C15"], "ids" => &["C16"], "keymap" => &["C16"],
         "oplog" => &["C12"], "session" => &["C01", "C08", "C09"], "permchange" => &["C09"], "arbiter" => &["C06", "C13"], "watch" => &["C03"], "lines" => &[], "flood" => &[],
         "connections" => &["C17"], "snapshot" => &["C01", "C06"], "resync" => &["C05"], "election" => &["C07"], "http" => &["C20"], "httpserver" => &["C08", "C09", "C17", "C20"], "tcpserver" => &["C03", "C17"], "race" => &["C01", "C02"], "oplogdisk" => &["C16"], "wsserver" => &["C03", "C17", "C20"],
-        "values" => &["C01", "C03"], "forward" => &["C08", "C09"], "resub" => &["C03"], "logthread" => &["C05", "C12", "C15"], "logroll" => &["C12"],
+        "values" => &["C01", "C03"], "forward" => &["C08", "C09"], "resub" => &["C03"], "logthread" => &["C05", "C12", "C15"], "logroll" => &["C12"], "linktag" => &["C07"], "replica" => &["C02", "C05", "C19"],
         _ => &[],
     }
 }
